@@ -16,6 +16,8 @@ Both time directions; dense output off (the step interpolants are pruned to the 
 """
 import copy
 import itertools
+import os
+import sys
 import z3
 
 from pyvc.executor import Executor, State, Ctx, Raised, Unsupported, Contract
@@ -91,7 +93,8 @@ def verify_recursive_contract(src, reg, prop, dense=False, direction=1):
     return IC.verify_integrate(src, reg, prop, callbacks=0, extra_inv=NO_CALLBACK_INV, extra_post=NO_CALLBACK_POST)
 
 
-def verify_integrate_events(src, reg, prop, n=1, terminals=(False,), direction=1, extra_inv=(), extra_post=(), callbacks=0, outcomes=None, dense=False, infinite=False):
+def verify_integrate_events(src, reg, prop, n=1, terminals=(False,), direction=1, extra_inv=(), extra_post=(), callbacks=0, outcomes=None, dense=False, infinite=False,
+                            after_failure=False):
     """outcomes: None = every outcome of handle_events; else a list of tuples of active event indices (and the string "raise") -- the
     outcomes this run explores.  Runs over a partition of the outcomes together verify the loop body (the jobs are run in parallel)."""
     ex = IC.base_executor(src, reg, prop)
@@ -225,6 +228,13 @@ def verify_integrate_events(src, reg, prop, n=1, terminals=(False,), direction=1
     def iteration_end(ex_, st, ctx):
         """Ghost link between the roots handle_events returned and the records made in this iteration."""
         callbacks_ran(ex_, st, ctx, "iteration-end")
+        # C09: an iteration that ends the run at a terminal event leaves status 2 ("terminated by an event", a success) whatever the status
+        # was before -- also when an earlier, failed call had stored its exception there
+        ei = st.env.get("end_int")
+        if ei is True or (z3.is_expr(ei) and z3.is_true(z3.simplify(ei))):
+            stat = st.obj(st.env["self"]).fields.get("_OdeSystem__int_status")
+            reg.ground("%s/%s/terminal-stop-sets-status-2-whatever-the-earlier-status" % (ex_.prop, ctx.tag), "post", "OdeSystem.integrate",
+                       isinstance(stat, int) and not isinstance(stat, bool) and stat == 2, backend="symbolic-exec", detail="status at the end of the iteration that stopped at a terminal event: %r" % (stat,))
         es = st.ghost.get("event_step")
         st.ghost["event_step"] = None
         if es is None:
@@ -268,7 +278,9 @@ def verify_integrate_events(src, reg, prop, n=1, terminals=(False,), direction=1
     ex.contracts["OdeSystem.integrate"] = recursive_contract(direction, dense)
 
     # ---- the contract of the outer call
-    c = IC.make_contract(callbacks)
+    # after_failure: the pre-state's status is the exception object an earlier, failed call stored (only reset() clears it): a stop at a
+    # terminal event is still reported as such (status 2, success); without a terminal stop the failure stays (it is sticky by design)
+    c = IC.make_contract(callbacks, status0=ExcVal("FailedIntegration", tag="earlier-failure"), drop_status_post=True) if after_failure else IC.make_contract(callbacks)
     c.sorts = dict(c.sorts)
     c.sorts["events"] = ("list",) + tuple(("const", e) for e in events)
     inv = [x for x in c.loops[0]["invariant"] if "same(self.__int_status" not in x]
@@ -327,6 +339,8 @@ def verify_integrate_events(src, reg, prop, n=1, terminals=(False,), direction=1
         # without a terminal event the run ends at its target (or a callback set the step to zero)
         "implies(self.__int_status == 1 and abs(tf_ - old(self.__t)[old(self.counter)]) >= eps, abs(tf_ - self.__t[self.counter]) < 8 * eps or self.__dt == 0)",
     ] + list(extra_post)
+    if after_failure:
+        c.ensures = [e.replace("self.__int_status == 1", "(not (self.__int_status == 2))") for e in c.ensures]
     # exceptional exit: records of earlier calls untouched, and the step interpolants still describe recorded steps only (C12: the
     # next call may start from here)
     c.ensures_exc = list(c.ensures_exc) + ev_post[:2] + sol_inv
@@ -379,6 +393,8 @@ def verify_integrate_events(src, reg, prop, n=1, terminals=(False,), direction=1
             return chk.check() == z3.sat
         return False
     reach = {1: False, 2: False}
+    if os.environ.get("VERIF_TRACE"):
+        sys.stderr.write("[rets] %r\n" % [(type(v_).__name__, (s_.obj((s_.ghost.get("_ret_env") or {}).get("self")).fields.get("_OdeSystem__int_status") if isinstance((s_.ghost.get("_ret_env") or {}).get("self"), Ref) else "?")) for s_, v_ in rets][:40])
     for s_, v_ in rets:
         env_ = s_.ghost.get("_ret_env") or {}
         if not isinstance(v_, Raised) and isinstance(env_.get("self"), Ref):
@@ -387,10 +403,14 @@ def verify_integrate_events(src, reg, prop, n=1, terminals=(False,), direction=1
                 if not reach[k] and may_be(s_, x, k):
                     reach[k] = True
     tag = "OdeSystem.integrate"
-    if not infinite:
-        reg.ground("%s/%s/cover#a-normal-return-with-status-1" % (prop, tag), "cover", tag, reach[1], backend="z3")
     explored = all_outcomes(n, terminals) if outcomes is None else [o for o in outcomes if not isinstance(o, str)]
-    if any(terminals[i] for o in explored for i in o):
+    if after_failure:
+        # the loop-head abstraction keeps the status *object* of the pre-state (an exception value cannot become an integer under havoc):
+        # the exit with status 2 is therefore decided at the end of the terminating iteration (obligation above), not at the return
+        pass
+    elif not infinite:
+        reg.ground("%s/%s/cover#a-normal-return-with-status-1" % (prop, tag), "cover", tag, reach[1], backend="z3")
+    if not after_failure and any(terminals[i] for o in explored for i in o):
         reg.ground("%s/%s/cover#a-normal-return-with-status-2-after-a-terminal-event" % (prop, tag), "cover", tag, reach[2], backend="z3")
     return ex, c, rets
 
@@ -422,10 +442,11 @@ def outcome_partition(n, terminals):
     return parts
 
 
-def job_events(reg, src, prop, n, terminals, direction, callbacks=0, outcomes=None, part=None, dense=False, infinite=False):
-    label = config_label(n, terminals, direction, callbacks, dense, infinite) + ("" if part is None else "#part%d" % part)
+def job_events(reg, src, prop, n, terminals, direction, callbacks=0, outcomes=None, part=None, dense=False, infinite=False, after_failure=False):
+    label = config_label(n, terminals, direction, callbacks, dense, infinite) + (",after-a-failure" if after_failure else "") + ("" if part is None else "#part%d" % part)
     outs = None if outcomes is None else [tuple(o) if not isinstance(o, str) else o for o in outcomes]
-    ex, c, rets = verify_integrate_events(src, reg, "%s/%s" % (prop, label), n=n, terminals=tuple(terminals), direction=direction, callbacks=callbacks, outcomes=outs, dense=dense, infinite=infinite)
+    ex, c, rets = verify_integrate_events(src, reg, "%s/%s" % (prop, label), n=n, terminals=tuple(terminals), direction=direction, callbacks=callbacks, outcomes=outs, dense=dense, infinite=infinite,
+                                          after_failure=after_failure)
     return dict(ex.stats)
 
 
